@@ -30,6 +30,7 @@ import (
 
 // EngineOptions selects the optimisation switches of C09 and helpers of other properties.
 type EngineOptions struct {
+	ValidateRequires bool // planner BuildFetchReasons + ValidateRequiredExternalFields, resolver ValidateRequiredExternalFields
 	MultiFetch      bool                      `json:"multifetch,omitempty"`
 	ScheduleFetches bool                      `json:"schedule,omitempty"`
 	Minify          bool                      `json:"minify,omitempty"`
@@ -177,6 +178,13 @@ func NewOnWorld(w *sim.World, o EngineOptions) (*Gateway, error) {
 	ro := resolve.ResolverOptions{MaxConcurrency: 32}
 	if o.ResolverOptions != nil {
 		ro = *o.ResolverOptions
+	}
+	if o.ValidateRequires {
+		// "validate nullable external @requires dependencies": an entity whose required field
+		// came back null with an error is withheld from the fetches that require it
+		pc.BuildFetchReasons = true
+		pc.ValidateRequiredExternalFields = true
+		ro.ValidateRequiredExternalFields = true
 	}
 	eng, err := engine.NewExecutionEngine(ctx, abstractlogger.Noop{}, conf, ro)
 	if err != nil {
